@@ -223,6 +223,9 @@ pub use machine::Machine;
 #[cfg(feature = "parsing")]
 pub mod parsing;
 
+#[cfg(feature = "verif")]
+pub mod verif;
+
 #[cfg(test)]
 mod tests {
 
